@@ -48,6 +48,11 @@ def norm(t):
         return t
     if k == "aug":  # x op= y  ==  x = x op y
         return norm(("binop", t[1], t[2], t[3]))
+    if k == "ifexp" and len(t) == 4:
+        a_, b_ = norm(t[2]), norm(t[3])
+        if a_ == b_:
+            return a_  # the same value on both branches (a helper that returns `x, None` or `x, f(x)`: component 0)
+        return ("ifexp", norm(t[1]), a_, b_)
     if k == "call":
         fn = norm(t[1])
         args = tuple(norm(a) for a in t[2])
@@ -88,6 +93,10 @@ def norm(t):
         # int(<count>) == <count>: counts are integers already
         if fn == ("builtin", "int") and len(args) == 1 and not kws and args[0][0] == "call" and args[0][1] in (
                 ("global", "numpy.count_nonzero"), ("builtin", "len"), ("global", "numpy.size")):
+            return args[0]
+        # bool(<comparison / boolean expression>) == the expression: it is a truth value already (a numpy bool_ scalar at most)
+        if fn == ("builtin", "bool") and len(args) == 1 and not kws and args[0][0] in ("cmp", "bool") or (
+                fn == ("builtin", "bool") and len(args) == 1 and not kws and args[0][0] == "unary" and args[0][1] == "not"):
             return args[0]
         return ("call", fn, args, tuple(sorted(kws, key=lambda p: p[0])))
     if k == "attr":
